@@ -26,6 +26,8 @@ mod c20;
 mod cli;
 mod c05;
 mod c15;
+mod c14;
+mod c14child;
 mod sessrun;
 mod c17;
 mod c19;
@@ -41,6 +43,9 @@ fn main() {
     let prop = args.get(1).cloned().unwrap_or_default();
     if prop == "--sessrun" {
         std::process::exit(sessrun::child_main(&args[2]));
+    }
+    if prop == "--c14child" {
+        std::process::exit(c14child::child_main(&args[2]));
     }
     if prop == "--worker" {
         std::process::exit(pool::worker_main(&args[2]));
@@ -74,6 +79,7 @@ fn main() {
         "c20" => c20::run(&tier, seed, &out),
         "c05" => c05::run(&tier, seed, &out),
         "c15" => c15::run(&tier, seed, &out),
+        "c14" => c14::run(&tier, seed, &out),
         "c17" => c17::run(&tier, seed, &out),
         "c19" => c19::run(&tier, seed, &out),
         "c13" => c13::run(&tier, seed, &out),
